@@ -786,6 +786,9 @@ def main():
     from tucan.canonicalization import canonicalize_molecule
     from tucan.serialization import serialize_molecule
     from tucan.io import graph_from_tucan, TucanParserException, graph_from_molfile_text, graph_to_molfile
+    from tucan.io.molfile_reader import graph_from_file
+    import os, shutil, tempfile
+    scratch_dir = tempfile.mkdtemp(prefix="verif-c14-files-")
     from tucan.element_attributes import ELEMENT_ATTRS
     SYM = {v["atomic_number"]: k for k, v in ELEMENT_ATTRS.items()}
     ops = {o["id"]: o for o in wl["ops"]}
@@ -816,6 +819,12 @@ def main():
         try:
             if k in ("read", "badmol"):
                 return gj(graph_from_molfile_text(op["text"]))
+            if k == "readfile":
+                # one scratch path per thread, overwritten for every file operation (a conversion loop's scratch file)
+                path = os.path.join(scratch_dir, "scratch-%d.mol" % threading.get_ident())
+                with open(path, "w") as fh:
+                    fh.write(op["text"])
+                return gj(graph_from_file(path))
             if k == "canon":
                 c = canonicalize_molecule(build(op["mol"]))
                 return {"tucan": serialize_molecule(c), "canon": gj(c)}
@@ -850,6 +859,7 @@ def main():
             out["threads"] = [f.result() for f in futs]
     else:
         out["results"] = run_order(mode["order"])
+    shutil.rmtree(scratch_dir, ignore_errors=True)
     out["t"] = round(time.time() - t0, 2)
     out["hashseed"] = __import__("os").environ.get("PYTHONHASHSEED")
     out["hash_of_a"] = hash("a")
@@ -911,6 +921,9 @@ def build_workload(run, model):
     texts = {f: open(f).read() for f in chosen + v2}
     for f in chosen + v2:
         add("read", text=texts[f], src=os.path.relpath(f, common.REPO))
+    # the same scratch path rewritten with another molecule before every read from a file
+    for f in chosen[:4] + v2[:1]:
+        add("readfile", text=texts[f], src=os.path.relpath(f, common.REPO))
     # rendered molfiles: small ionic / isotopic molecules whose atoms share charge codes and D/T symbols, so that
     # state leaking from one read into a later one (or into another thread) changes a result
     import text_checks as TC
@@ -1171,6 +1184,13 @@ def k10(run, model, ops, ref):
                 ib = sorted(set(tuple(sorted((u, v))) for u, v, _ in res["edges"]))
                 if sorted(ma) != ia or sorted(set(_norm_edges(mb))) != ib:
                     _diff(run, "K10", "parsed graph differs", case, {"model": ans[:300], "impl": str((ia, ib))[:300]})
+        elif o["kind"] == "readfile":
+            comp["cases"] += 1
+            twin = next((x for x in ops if x["kind"] == "read" and x["text"] == o["text"]), None)
+            if twin is not None and ref[twin["id"]] != ref[o["id"]]:
+                _hit(run, "C14", "graph_from_file on a rewritten scratch path returns another molecule than the text that is in the file "
+                     "(result depends on files read earlier in the process)", {"op": {k: (v if not isinstance(v, str) else v[:2000]) for k, v in o.items()}, "hashseed": 0, "order": "listed", "threads": 0},
+                     {"difference": _first_difference(ref[twin["id"]], ref[o["id"]])})
         elif o["kind"] == "badmol":
             run.count("c14:badmol:" + (res.get("exc") or "accepted"))
 
